@@ -76,6 +76,24 @@ def gen_config(rng, hostpool):
         if cfg['storage'] == 'legacy' and rng.random() < 0.5:
             cfg['program']['default_policy'] = True
     if rng.random() < 0.3:
+        # the view is a CLASS, possibly with @view_defaults / __view_defaults__ carrying require_csrf (directly or inherited)
+        cls = {'how': rng.choice(['decorator', 'attr', 'inherited'])}
+        if rng.random() < 0.75:
+            cls['require_csrf'] = rng.choice([True, False, False, False, None, 'int0'])
+        cfg['view_class'] = cls
+    if cfg['storage'] in ('cookie', 'session') and rng.random() < 0.25:
+        # the policy constructed with its own cookie name / session key (first constructor argument, positional or keyword)
+        cfg['policy_args'] = {'name': rng.choice(['alt_tok', 'X-T', '_csrf2_']), 'positional': rng.random() < 0.5}
+    if rng.random() < 0.2:
+        cfg['route'] = 'scan'                    # registered by @view_config(..) + config.scan(module), not by add_view
+    if explicit is None and rng.random() < 0.4:
+        cfg['explicit_none_passed'] = True       # add_view(.., require_csrf=None) spelled out
+    if cfg['exception_only'] and explicit is False and 'view_class' not in cfg and 'route' not in cfg and rng.random() < 0.5:
+        cfg['exc_api'] = True                    # registered through add_exception_view (which opts out itself)
+    d_ = cfg['defaults']
+    if d_ is not None and rng.random() < 0.35:
+        d_['positional'] = rng.choice([1, 2, 3, 4, 5, 6, 6, 6, 7])   # that many leading options passed POSITIONALLY
+    if rng.random() < 0.3:
         # other views of the same application, derived with their own require_csrf (before / after the one under test)
         cfg['decoys'] = [{'explicit': rng.choice([True, False, None, True, False]), 'pos': rng.choice(['before', 'after'])}
                          for _ in range(rng.choice([1, 2, 3]))]
@@ -358,6 +376,28 @@ def canonical_cases():
                         'caller': None, 'raises': False,
                         'reqs': [_req('a.example.com', origin='https://a.example.com'),
                                  _req('a.example.com', origin='https://a.example.com', header_tok=tok)]})
+    # round 6: class-level opt-out + call-level explicit None under a requiring default; directive options given positionally
+    cfg = dict(base_cfg, explicit=None, explicit_none_passed=True, defaults={'require_csrf': True})
+    for how in ('decorator', 'attr', 'inherited'):
+        for cv in (False, True):
+            out.append({'config': dict(cfg, view_class={'how': how, 'require_csrf': cv}), 'caller': None, 'raises': False,
+                        'reqs': [_req('a.example.com', origin='https://a.example.com'),
+                                 _req('a.example.com', origin='https://evil.com', header_tok='a1b2c3d4')]})
+    for vc in (None, {'how': 'decorator', 'require_csrf': False}):
+        for ex in (True, False, None):
+            c2 = dict(base_cfg, explicit=ex, route='scan', defaults={'require_csrf': True})
+            if vc:
+                c2['view_class'] = vc
+            out.append({'config': c2, 'caller': None, 'raises': False,
+                        'reqs': [_req('a.example.com', origin='https://a.example.com'),
+                                 _req('a.example.com', origin='https://a.example.com', header_tok='a1b2c3d4')]})
+    for co, an in ((True, False), (False, True)):
+        out.append({'config': dict(base_cfg, defaults={'require_csrf': True, 'check_origin': co, 'allow_no_origin': an,
+                                                       'positional': 6}),
+                    'caller': None, 'raises': False,
+                    'reqs': [_req('a.example.com', origin='https://evil.com', header_tok='a1b2c3d4'),
+                             _req('a.example.com', header_tok='a1b2c3d4'),
+                             _req('a.example.com', origin='http://a.example.com', header_tok='a1b2c3d4')]})
     return out
 
 
